@@ -502,8 +502,9 @@ theorem decode_canonical (a : Bytes) (P : G1Pt) (hwf : WF a) (h : decodeG1c a = 
   unfold decodeG1c at h
   split at h
   · simp at h
-  · next hlen =>
-    have hlen : a.length = 48 := by simpa using hlen
+  · next hlen0 =>
+    have hlen : a.length = 48 := by simpa using hlen0
+    clear hlen0
     have hP : uncompressG1 a = .ok P := by
       split at h
       · simp at h
@@ -559,9 +560,13 @@ theorem decode_canonical (a : Bytes) (P : G1Pt) (hwf : WF a) (h : decodeG1c a = 
                     rcases List.mem_cons.mp hz with rfl | hz
                     · omega
                     · exact ht z hz
+                  have hl48 : ((b0 % 32) :: t).length = 48 := by rw [List.length_cons, htl]
                   have hbe := natToBe_beToNat ((b0 % 32) :: t) hwf'
-                  simp only [List.length_cons, htl] at hbe
-                  simp only [encodeG1c, hbe, hsg]
+                  rw [hl48] at hbe
+                  simp only [encodeG1c]
+                  rw [hbe]
+                  simp only [hsg]
+                  show (b0 % 32 + 128 + if (b0 / 32 % 2 == 1) = true then 32 else 0) :: t = b0 :: t
                   congr 1
                   by_cases hf : b0 / 32 % 2 = 1
                   · simp [hf]; omega
@@ -588,8 +593,9 @@ theorem decode_canonical_uncompressed_partial (a : Bytes) (x y : Nat) (hwf : WF 
   unfold decodeG1u at h
   split at h
   · simp at h
-  · next hlen =>
-    have hlen : a.length = 96 := by simpa using hlen
+  · next hlen0 =>
+    have hlen : a.length = 96 := by simpa using hlen0
+    clear hlen0
     have hP : deserializeG1 a = .ok (.aff x y) := by
       split at h
       · simp at h
@@ -630,9 +636,9 @@ the compressed generator followed by 48 arbitrary bytes is accepted in a 96-byte
 to the generator, whose canonical encoding is a different byte string. -/
 example :
     let a := natToBe 48 (2 ^ 383 + 0x17f1d3a73197d7942695638c4fa9ac0fc3688c4f9774b905a14e3a3f171bac586c55e83ff97a1aeffb3af00adb22c6bb) ++ List.replicate 48 0xaa
-    match decodeG1u a with
-    | .ok P => encodeG1u P ≠ a
-    | .error _ => False := by
+    (match decodeG1u a with
+    | .ok P => encodeG1u P != a
+    | .error _ => false) = true := by
   decide +kernel
 
 /-- `G2Affine::from_uncompressed` (RawBytes verifier parameters) does check the subgroup. -/
@@ -736,7 +742,9 @@ theorem proof_parsed_exact_length (decPt : Bytes → Except Err G1Pt) (s : Proof
         cases rest with
         | nil => rfl
         | cons _ _ => simp at hempty
-      exact ⟨by rw [this.2, hr]; rfl, by omega⟩
+      refine ⟨?_, by omega⟩
+      rw [this.2, hr, Nat.add_zero]
+      simp only [proofLen]
     · simp at hv
 
 /-- The verifier never reads more elements than the schedule has, whatever the bytes. -/
@@ -748,7 +756,7 @@ theorem proof_reads_bounded (decPt : Bytes → Except Err G1Pt) (s : ProofShape)
   · next n rest hp => have := (parseElems_spec decPt _ _ _ _ _ _ hp).2.1; simpa using this
 
 /-- Non-vacuity: the shape of the harness' relation A gives its 2528-byte proof. -/
-example : proofLen ⟨5, 1, 0, 8, 5, 0, 11, 13, 4⟩ = 2528 := by decide
+example : proofLen ⟨5, 1, 0, 8, 5, 1, 8, 17, 4⟩ = 2528 ∧ proofLen ⟨8, 2, 1, 8, 5, 1, 11, 19, 4⟩ = 3216 := by decide
 
 /-! ## ZKIR programs -/
 
